@@ -1,5 +1,5 @@
 (* Proofs/ParseRef.v — Session.Parse model against the reference decoder (Spec/RFC.v): the projection,
-   the refutation witnesses of the three recorded classes (IP4.IsValid / IP6.IsValid, VIEWS cluster), and (below) the partial equality theorem. *)
+   the refutation witnesses of the four classes of the original validators IP4.IsValid / IP6.IsValid / TCP.IsValid (VIEWS cluster; refuted for the variant [fx_old], the same inputs agree under [fx_new]), and (below) the partial equality theorem. *)
 From PV Require Import Base.Prelude Base.Slice Model.Parse Spec.RFC Model.ParseKnown Proofs.Parse.
 Open Scope N_scope.
 Open Scope res_scope.
@@ -65,15 +65,31 @@ Proof. repeat split; vm_compute; reflexivity. Qed.
 
 (* IPv4, IHL = 4 words (16 bytes), protocol 0: accepted, payload at 14+16 *)
 Definition w_ip4_ihl : bytes := (hdr [8;0] ++ [68;0;0;20;0;0;0;0;64;0;0;0; 192;168;0;1; 192;168;0;2])%list.
-Lemma eq_ref_refuted_ip4_ihl : exists c s, wf s /\ bytes_ok (arr s) /\ known_C02 (view s) = Some "parse-ip4-ihl"%string /\ ~ agrees (parse c s) (ref_decode (view s)).
+Lemma eq_ref_refuted_ip4_ihl : exists c s, wf s /\ bytes_ok (arr s) /\ known_C02 (c_fx c) (view s) = Some "parse-ip4-ihl"%string /\ ~ agrees (parse c s) (ref_decode (view s)).
 Proof. refute w_ip4_ihl. Qed.
 
 (* IPv4, IHL = 5, TotalLen = 10 < 20: accepted *)
 Definition w_ip4_tl : bytes := (hdr [8;0] ++ [69;0;0;10;0;0;0;0;64;0;0;0; 192;168;0;1; 192;168;0;2])%list.
-Lemma eq_ref_refuted_ip4_totallen : exists c s, wf s /\ bytes_ok (arr s) /\ known_C02 (view s) = Some "parse-ip4-totallen"%string /\ ~ agrees (parse c s) (ref_decode (view s)).
+Lemma eq_ref_refuted_ip4_totallen : exists c s, wf s /\ bytes_ok (arr s) /\ known_C02 (c_fx c) (view s) = Some "parse-ip4-totallen"%string /\ ~ agrees (parse c s) (ref_decode (view s)).
 Proof. refute w_ip4_tl. Qed.
 
 (* IPv6, PayloadLen 0, protocol 59, followed by 2 trailing bytes: rejected *)
 Definition w_ip6_trail : bytes := (hdr [134;221] ++ [96;0;0;0;0;0;59;64] ++ repeat 0 15 ++ [1] ++ repeat 0 15 ++ [2] ++ [0;0])%list.
-Lemma eq_ref_refuted_ip6_trailing : exists c s, wf s /\ bytes_ok (arr s) /\ known_C02 (view s) = Some "parse-ip6-trailing"%string /\ ~ agrees (parse c s) (ref_decode (view s)).
+Lemma eq_ref_refuted_ip6_trailing : exists c s, wf s /\ bytes_ok (arr s) /\ known_C02 (c_fx c) (view s) = Some "parse-ip6-trailing"%string /\ ~ agrees (parse c s) (ref_decode (view s)).
 Proof. refute w_ip6_trail. Qed.
+
+(* TCP over IPv4, 20-byte segment with data offset 0: accepted by the original TCP.IsValid *)
+Definition w_tcp_doff : bytes :=
+  (hdr [8;0] ++ [69;0;0;40;0;0;0;0;64;6;0;0; 192;168;0;1; 192;168;0;2] ++ [0;80;0;81; 0;0;0;0; 0;0;0;0; 0;16;0;0; 0;0;0;0])%list.
+Lemma eq_ref_refuted_tcp_doff : exists c s, wf s /\ bytes_ok (arr s) /\ known_C02 (c_fx c) (view s) = Some "parse-tcp-doff"%string /\ ~ agrees (parse c s) (ref_decode (view s)).
+Proof. refute w_tcp_doff. Qed.
+
+(* the same inputs under the repaired validators: Parse and the reference decoder agree, no class applies *)
+Example repaired_validators_agree :
+  agreesb (parse cfg1 (of_bytes w_ip4_ihl)) (ref_decode w_ip4_ihl) = true /\
+  agreesb (parse cfg1 (of_bytes w_ip4_tl)) (ref_decode w_ip4_tl) = true /\
+  agreesb (parse cfg1 (of_bytes w_ip6_trail)) (ref_decode w_ip6_trail) = true /\
+  agreesb (parse cfg1 (of_bytes w_tcp_doff)) (ref_decode w_tcp_doff) = true /\
+  known_C02 fx_new w_ip4_ihl = None /\ known_C02 fx_new w_ip4_tl = None /\
+  known_C02 fx_new w_ip6_trail = None /\ known_C02 fx_new w_tcp_doff = None.
+Proof. repeat split; vm_compute; reflexivity. Qed.
